@@ -165,6 +165,28 @@ CHECKS = {
              "scanner violates the invariant (vacuity witness). Histories and probes are replayed in one process and compared step by step.",
         note="The 'failed a range check' event needs typed options and is covered at token level (pairs of texts parsed into one context) "
              "because the byte-level composition carries string options only."),
+    "C16": dict(
+        cat="model_checking", ref="7/C16",
+        text="MC_Own: two contexts built from the same declarations; every interleaving (to the bound) of parses that create nested "
+             "multi-section instances and free-form keys, setters, annotations, titled add/remove, callback registration on an option "
+             "and on a section template, and writes into one of two sibling instances. TLC checks that each context equals the result of "
+             "its own operations alone, that an operation never changes the other context, and that sibling instances are independent. "
+             "In the replay the caller's declaration arrays and every string in them are overwritten with 0xA5 and freed right after "
+             "the second cfg_init, so ASan reports any later read; both trees are compared with the specification after every step.",
+        note="The specification never reads the declarations after Init by construction; the binding of that claim to the code is the "
+             "poison-and-free replay under ASan. CFG_SIMPLE_* options share a caller variable by design and are not part of this model."),
+    "C18": dict(
+        cat="fault_enumeration", ref="7/C18",
+        text="Workloads are behaviours of the specification covering the public entry points (every successful API transition of the "
+             "API model from two states, the longest accepted and rejected texts of the parser / callback / include models, cfg_init "
+             "for each schema, search path, tilde, file parse, include, annotation, by-path lookup, print). For each workload, every k "
+             "up to the number of allocation requests confuse.c issues during the target call is enumerated: the k-th request returns "
+             "NULL (force-included allocation shim). Oracle: the process survives under ASan/UBSan; the call returns a failure code, or "
+             "success together with the specification's complete post-state; the context prints and frees; heap blocks, descriptors "
+             "and the include stack return to their start values.",
+        tech="fault enumeration (k-th allocation fails, exhaustive over k) over workloads exported from the TLA+ models, with the specification's post-state as oracle",
+        note="Scanner-internal (flex) allocations are out of scope as the property says; what a failed call leaves behind is only required to be "
+             "consistent and releasable, not equal to the pre-state."),
 }
 
 PENDING = {
